@@ -65,6 +65,19 @@ pub fn programs16() -> Vec<Prog> {
         p.push(None, Stmt::Fill(Lit::hex(words[1])));
         v.push(Prog::new(name, p, true));
     }
+    // a `.break` of the source lying on the first word beyond user space, and one on its last word
+    for (name, at) in [("break-at-xFE00", 2usize), ("break-at-xFDFF", 1)] {
+        let mut p = Program::default();
+        p.items.push(Item::Orig(Lit::hex(0xFDFE)));
+        let stmts = [(Some("first"), Stmt::Add(1, 1, Src2::Imm(Lit::dec(2)))), (Some("end"), Stmt::Add(1, 1, Src2::Imm(Lit::dec(1)))), (None, Stmt::Add(1, 1, Src2::Imm(Lit::dec(1)))), (None, Stmt::Named(0x25, "halt"))];
+        for (i, (l, st)) in stmts.into_iter().enumerate() {
+            if i == at {
+                p.items.push(Item::Break);
+            }
+            p.push(l, st);
+        }
+        v.push(Prog::new(name, p, true));
+    }
     // ... and stored there by the program before it jumps (xFFFF: a JSRR word)
     let mut p = Program::default();
     p.push(Some("first"), Stmt::Mem(PcRel::Ld, 0, lbl("word")));
@@ -158,7 +171,7 @@ pub fn run(ctx: &Ctx) -> i32 {
     let _ = super::variant::measured();
     let progs = programs16();
     let alphabets: Vec<Vec<Action>> = progs.iter().map(alphabet).collect();
-    let depth = ctx.tier.pick(7, 12);
+    let depth = ctx.tier.pick(7, 10);
     let roots: Vec<St> = (0..progs.len()).map(|i| St { tag: i as u32, hist: vec![], digest: i as u64 }).collect();
     let step = |acc: &mut Acc, s: &St| -> Vec<St> {
         let i = s.tag as usize;
@@ -218,7 +231,7 @@ pub fn run(ctx: &Ctx) -> i32 {
         }
         out
     };
-    let cfg = bfs::Config { max_depth: depth, dedup: true, state_cap: 2_000_000, wall_cap_s: ctx.tier.pick(45, 1200) };
+    let cfg = bfs::Config { max_depth: depth, dedup: true, state_cap: 4_000_000, wall_cap_s: ctx.tier.pick(45, 1200) };
     let (acc, stats) = bfs::explore(roots, &cfg, Some(Env::new(true)), step);
     finish(
         ctx,
